@@ -32,8 +32,10 @@ THEOREMS = [P + n for n in [
     "generated_tables_ok",
     "parse_gen_counterexample_neg_range",
     "parse_gen_counterexample_like_chain",
+    "bitwisenot_glue_witness",
     "format_time_id",
     "format_time_no_key_start",
+    "format_time_base",
 ]]
 
 LEVELS = ["DISJUNCTION", "CONJUNCTION", "EQUALITY", "COMPARISON", "BITWISE", "TERM", "FACTOR", "EXPONENT"]
@@ -821,6 +823,9 @@ def run(chk: Check) -> None:
         "SELECT/joins/CTEs/set operations/windows/casts are covered by the search oracle only",
         "string and identifier escaping is C04's subject: generated literals contain no quote characters",
     ]
+    import logging
+
+    logging.getLogger("sqlglot").setLevel(logging.ERROR)
     tabs = dialect_tables(chk)
     chk.write_generated(translate(chk, tabs))
     proved = chk.prove(MODULES, "Properties.C01", THEOREMS)
